@@ -13,6 +13,7 @@ import (
 	"fmt"
 	"io"
 	"regexp"
+	"sort"
 	"strings"
 	"sync"
 	"time"
@@ -41,6 +42,7 @@ type Result struct {
 	Desc         bool                `json:"desc"` // newest first
 	LabelSets    []map[string]string `json:"label_sets,omitempty"`
 	Complexity   int64               `json:"complexity,omitempty"` // value served for the TraceQL complexity estimate
+	Explicit     []Row               `json:"-"`                    // rows given by the harness at run time (C09)
 }
 
 // Row is one served row in harness terms.
@@ -55,6 +57,9 @@ type Row struct {
 
 // Rows materialises the result set.
 func (r *Result) Rows() []Row {
+	if r.Explicit != nil {
+		return r.Explicit
+	}
 	var out []Row
 	step := r.StepNs
 	if step == 0 {
@@ -166,6 +171,8 @@ func (db *DB) Since(n int) []*Stmt {
 	defer db.mu.Unlock()
 	return append([]*Stmt(nil), db.Stmts[n:]...)
 }
+
+var reOrderTs = regexp.MustCompile(`(?i)ORDER BY[^()]*?timestamp_ns\s+(asc|desc)`)
 
 var (
 	reVersion = regexp.MustCompile(`(?is)FROM\s+settings(_dist)?\s+WHERE\s+type='update'`)
@@ -396,6 +403,19 @@ func (c *conn) QueryContext(ctx context.Context, q string, args []driver.NamedVa
 	db.OpenRows++
 	db.mu.Unlock()
 	data := res.Rows()
+	if res.Explicit != nil {
+		// rows given by the harness are returned in the order the statement asks for
+		data = append([]Row(nil), data...)
+		if m := reOrderTs.FindAllStringSubmatch(q, -1); len(m) > 0 {
+			desc := strings.EqualFold(m[len(m)-1][1], "desc")
+			sort.SliceStable(data, func(i, j int) bool {
+				if desc {
+					return data[i].TsNs > data[j].TsNs
+				}
+				return data[i].TsNs < data[j].TsNs
+			})
+		}
+	}
 	if res.Complexity > 0 && len(st.Cols) == 1 && len(data) == 0 {
 		data = []Row{{}}
 	}
